@@ -1,0 +1,98 @@
+//! Verification hooks, only compiled with `--cfg lasso_verif`.
+//!
+//! Nothing in here changes what the crate does: [`point`] reports that a thread is about to
+//! perform (or has just performed) a shared-memory event to an optional, process-global
+//! observer, and the audit types give read-only access to the layout of an arena.
+
+use core::sync::atomic::{AtomicUsize, Ordering};
+
+/// The signature of the observer installed with [`set_observer`]
+pub type Observer = fn(site: u16, a: usize, b: usize);
+
+static OBSERVER: AtomicUsize = AtomicUsize::new(0);
+
+/// Install (or with `None` remove) the process-global observer
+pub fn set_observer(observer: Option<Observer>) {
+    OBSERVER.store(observer.map_or(0, |f| f as usize), Ordering::SeqCst);
+}
+
+/// Report the event `site` with its two operands to the observer, if there is one
+#[inline]
+pub fn point(site: u16, a: usize, b: usize) {
+    let raw = OBSERVER.load(Ordering::SeqCst);
+    if raw != 0 {
+        // Safety: Only `set_observer` writes the static and it only stores valid `Observer`s
+        let observer: Observer = unsafe { core::mem::transmute::<usize, Observer>(raw) };
+        observer(site, a, b);
+    }
+}
+
+/// The events reported through [`point`]. `PRE_*` events are reported immediately before the
+/// operation they name, `OBS_*` events immediately after it and carry what the operation returned
+#[allow(missing_docs)]
+pub mod site {
+    // ThreadedRodeo
+    pub const PRE_MAP_GET: u16 = 1; // a = shard of the string-to-key map
+    pub const OBS_MAP_GET: u16 = 2; // a = found, b = key
+    pub const PRE_SHARD_WRITE: u16 = 3; // a = shard
+    pub const OBS_SHARD_FIND: u16 = 4; // a = found, b = key (under the shard's write lock)
+    pub const PRE_KEY_FETCH_ADD: u16 = 5;
+    pub const OBS_KEY_FETCH_ADD: u16 = 6; // a = previous value of the counter
+    pub const PRE_STRINGS_INSERT: u16 = 7; // a = key
+    pub const PRE_MAP_INSERT: u16 = 8; // a = key
+    pub const PRE_MAP_ENTRY: u16 = 9; // a = shard
+    pub const OBS_MAP_ENTRY: u16 = 10; // a = occupied, b = key
+    pub const PRE_STRINGS_GET: u16 = 11; // a = key
+    pub const OBS_STRINGS_GET: u16 = 12; // a = found
+    // LockfreeArena
+    pub const PRE_ITER_LOAD: u16 = 20;
+    pub const OBS_ITER_LOAD: u16 = 21; // a = bucket address (0 at the end of the list)
+    pub const PRE_LEN_LOAD: u16 = 22; // a = bucket address
+    pub const OBS_LEN_LOAD: u16 = 23; // a = bucket address, b = length
+    pub const PRE_LEN_CAS: u16 = 24; // a = expected length, b = new length
+    pub const OBS_LEN_CAS: u16 = 25; // a = succeeded, b = the length found
+    pub const PRE_BUCKET_CAP_LOAD: u16 = 26;
+    pub const OBS_BUCKET_CAP_LOAD: u16 = 27; // a = capacity
+    pub const PRE_USAGE_LOAD: u16 = 28;
+    pub const OBS_USAGE_LOAD: u16 = 29; // a = usage
+    pub const PRE_LIMIT_LOAD: u16 = 30;
+    pub const OBS_LIMIT_LOAD: u16 = 31; // a = limit
+    pub const PRE_USAGE_CAS: u16 = 32; // a = expected usage, b = new usage
+    pub const OBS_USAGE_UPDATE: u16 = 33; // a = succeeded, b = the usage before the update
+    pub const PRE_BUCKET_CAP_STORE: u16 = 34; // a = capacity
+    pub const PRE_HEAD_LOAD: u16 = 35;
+    pub const OBS_HEAD_LOAD: u16 = 36; // a = bucket address
+    pub const PRE_HEAD_CAS: u16 = 37; // a = expected head, b = new head
+    pub const OBS_HEAD_CAS: u16 = 38; // a = succeeded, b = the head found
+    pub const OBS_BUCKET_ALLOC: u16 = 39; // a = bucket address, b = capacity
+    pub const OBS_STORED: u16 = 40; // a = bucket address, b = offset (a string was copied there)
+    pub const PRE_LIMIT_STORE: u16 = 41; // a = limit
+}
+
+/// One block of an arena
+#[derive(Debug, Clone, Copy, PartialEq, Eq)]
+pub struct BlockAudit {
+    /// The address of the block (of the bucket header for the lock-free arena)
+    pub block: usize,
+    /// The address of the first data byte of the block
+    pub data: usize,
+    /// The number of bytes the block can hold
+    pub capacity: usize,
+    /// The number of bytes of the block that are in use
+    pub used: usize,
+}
+
+/// A read-only snapshot of an arena's layout
+#[derive(Debug, Clone, PartialEq, Eq)]
+pub struct ArenaAudit {
+    /// Whether this is the lock-free arena
+    pub lockfree: bool,
+    /// The blocks, in the arena's own order
+    pub blocks: alloc::vec::Vec<BlockAudit>,
+    /// The capacity the next regular block is derived from
+    pub bucket_capacity: usize,
+    /// The reported memory usage
+    pub memory_usage: usize,
+    /// The configured memory limit
+    pub max_memory_usage: usize,
+}
